@@ -462,6 +462,62 @@ def standard_desc():
                     "padStep": "min", "dropZero": True}}
 
 
+# ----------------------------------------------------------------------------------------------
+# How ModelProcessor.load_circuit stores the compiled maps (Model/PulseStore.lean): the statements must be the expected ones.
+_STORE_EXPECT = {
+    "_generate_iterator_from_dict_or_list": [
+        "if isinstance(value, dict):\n    iterator = value.items()\nelif isinstance(value, (list, np.ndarray)):\n    "
+        "iterator = enumerate(value)\nelse:\n    raise ValueError('Wrong type.')",
+        "return iterator"],
+    "set_coeffs": [
+        "self.clear_pulses()",
+        "iterator = self._generate_iterator_from_dict_or_list(coeffs)",
+        "for label, coeff in iterator:\n    label = label\n    ham, targets = self.model.get_control(label)\n    "
+        "self.add_pulse(Pulse(ham, targets, coeff=coeffs[label], spline_kind=self.spline_kind, label=label))"],
+    "set_tlist": [
+        "if isinstance(tlist, np.ndarray) and len(tlist.shape) == 1:\n    for pulse in self.pulses:\n        pulse.tlist = tlist\n    return",
+        "iterator = self._generate_iterator_from_dict_or_list(tlist)",
+        "pulse_dict = self.get_pulse_dict()",
+        "for pulse_label, value in iterator:\n    self.pulses[pulse_dict[pulse_label]].tlist = value"],
+    "add_pulse": [
+        "if isinstance(pulse, Pulse):\n    if pulse.spline_kind is None:\n        pulse.spline_kind = self.spline_kind\n    "
+        "self.pulses.append(pulse)\nelse:\n    raise ValueError('Invalid input, pulse must be a Pulse object')"],
+    "clear_pulses": ["self.pulses = []"],
+    "get_pulse_dict": [
+        "label_list = {}",
+        "for i, pulse in enumerate(self.pulses):\n    if pulse.label is not None:\n        label_list[pulse.label] = i",
+        "return label_list"],
+}
+
+
+def read_store():
+    """TranslatorError unless Processor.set_coeffs / set_tlist / get_pulse_dict / add_pulse / clear_pulses are the functions
+    Model/PulseStore.lean models and load_circuit stores the maps with set_coeffs(coeffs) then set_tlist(tlist)"""
+    path = os.path.join(paths.REPO, "src", "qutip_qip", "device", "processor.py")
+    try:
+        tree = ast.parse(open(path).read())
+    except Exception as e:
+        raise TranslatorError(f"cannot parse {path}: {e}")
+    for name, want in _STORE_EXPECT.items():
+        _fn, body = _func(tree, name)
+        got = [U(x) for x in body]
+        if got != want:
+            k = next((i for i, (a_, b_) in enumerate(zip(got, want)) if a_ != b_), min(len(got), len(want)))
+            _fail(f"Processor.{name}: statement {k} is not the modelled one: "
+                  + (got[k][:120] if k < len(got) else "<missing>"))
+    path = os.path.join(paths.REPO, "src", "qutip_qip", "device", "modelprocessor.py")
+    try:
+        tree = ast.parse(open(path).read())
+    except Exception as e:
+        raise TranslatorError(f"cannot parse {path}: {e}")
+    _fn, body = _func(tree, "load_circuit")
+    tail = [U(x) for x in body[-3:]]
+    if tail != ["self.set_coeffs(coeffs)", "self.set_tlist(tlist)", "return (tlist, coeffs)"]:
+        _fail("ModelProcessor.load_circuit: `self.set_coeffs(coeffs); self.set_tlist(tlist); return tlist, coeffs` expected at the end: "
+              + " | ".join(tail))
+
+
+
 def _lr(x):
     x = F(x)
     if x.denominator == 1:
@@ -1083,6 +1139,139 @@ def shipped_instructions(case):
 
 
 # ----------------------------------------------------------------------------------------------
+# ----------------------------------------------------------------------------------------------
+# observation point "pulses stored in the processor after load_circuit"
+STORE_DEVICES = ("generic", "spinchain-linear", "spinchain-circular", "cavityqed", "scqubits")
+
+
+def label_key(lab):
+    """JSON-able name of a pulse label, by Python type"""
+    if isinstance(lab, (bool, np.bool_)):
+        return "b:" + str(lab)
+    if isinstance(lab, int):
+        return f"i:{lab}"
+    if isinstance(lab, np.integer):
+        return f"n:{int(lab)}"
+    return "s:" + str(lab)
+
+
+def store_label(case, fam, q):
+    """the label a compiler of the given style uses for the control of family `fam` (0/1) on qubit q"""
+    n, style, dev = case["n"], case["labels"], case["device"]
+    if dev == "generic":
+        k = fam * n + q
+        return k if style == "int" else (np.int64(k) if style == "npint" else f"c{k}")
+    name = ("sx", "sy" if dev == "scqubits" else "sz")[fam] + str(q)
+    return fam * n + q if style == "int" else name
+
+
+def build_store(case):
+    """(processor, compiler, circuit) of a store case: a compiler emitting one instruction per gate on the labels of the chosen style"""
+    from qutip import sigmax
+    from qutip_qip.device import ModelProcessor, Model, LinearSpinChain, CircularSpinChain, DispersiveCavityQED, SCQubits
+    from qutip_qip.compiler import GateCompiler, Instruction
+    from qutip_qip.circuit import QubitCircuit
+    n, dev = case["n"], case["device"]
+    if dev == "generic":
+        class GenericModel(Model):
+            def __init__(self):
+                super().__init__(n)
+                for fam in (0, 1):
+                    for q in range(n):
+                        self._controls[store_label(case, fam, q)] = (2 * np.pi * sigmax(), [q])
+        proc = ModelProcessor(model=GenericModel())
+        proc.native_gates = None
+    else:
+        proc = {"spinchain-linear": LinearSpinChain, "spinchain-circular": CircularSpinChain,
+                "cavityqed": DispersiveCavityQED, "scqubits": SCQubits}[dev](n)
+    queue = list(case["gates"])
+
+    class StoreCompiler(GateCompiler):
+        def __init__(self):
+            super().__init__(n)
+            for nm in ("RX", "RY", "RZ"):
+                self.gate_compiler[nm] = self.emit
+
+        def emit(self, gate, args):
+            g = queue.pop(0)
+            return [Instruction(gate, to_np(g["tl"]), [(store_label(case, fam, q), to_np(cf)) for fam, q, cf in g["pulses"]])]
+
+    qc = QubitCircuit(n)
+    fam1 = "RY" if dev == "scqubits" else "RZ"
+    for g in case["gates"]:
+        qc.add_gate("RX" if g["pulses"][0][0] == 0 else fam1, targets=g["pulses"][0][1], arg_value=1.0)
+    return proc, StoreCompiler(), qc
+
+
+def run_store(case):
+    """-> (status, maps, pulses, starts, perm): maps = [(key, tlist, coeff)] in the order of the returned coeff map and the
+    keys of the returned tlist map; pulses = [(key, tlist, coeff)] as stored in processor.pulses"""
+    gc_mod = _impl()[0]
+    proc, comp, qc = build_store(case)
+    real = gc_mod.Scheduler
+    rec = {"starts": None}
+
+    class RecScheduler(real):
+        def schedule(self, *a, **k):
+            r = super().schedule(*a, **k)
+            rec["starts"] = [float(x) for x in r]
+            return r
+
+    gc_mod.Scheduler = RecScheduler
+    try:
+        try:
+            tmap, cmap = proc.load_circuit(qc, schedule_mode=case["mode"], compiler=comp)
+        except Exception as e:
+            return "err", type(e).__name__ + ": " + str(e)[:80], None, rec["starts"], None
+    finally:
+        gc_mod.Scheduler = real
+    starts = rec["starts"]
+    perm = [int(i) for i in np.argsort(starts)] if starts is not None else None
+    maps = {"coeffs": [(lab, cmap[lab]) for lab in cmap], "tlists": [(lab, tmap[lab]) for lab in tmap]}
+    pulses = [(p.label, p.tlist, p.coeff) for p in proc.pulses]
+    return "ok", maps, pulses, starts, perm
+
+
+def store_windows_case(case):
+    """the store case in the format of the synthetic cases (labels by key), for the schedule-level oracle"""
+    gates = []
+    for g in case["gates"]:
+        gates.append({"name": "RX", "targets": [g["pulses"][0][1]], "controls": None, "tl": g["tl"],
+                      "pulses": [[label_key(store_label(case, fam, q)), cf] for fam, q, cf in g["pulses"]]})
+    return {"nq": case["n"], "mode": case["mode"], "gates": gates}
+
+
+def gen_store_case(rng, device=None, style=None, order=None):
+    dev = device or rng.choice(STORE_DEVICES)
+    n = rng.randint(2, 4) if dev != "scqubits" else rng.randint(2, 3)
+    style = style or rng.choice(["int", "int", "str", "npint"] if dev == "generic" else ["int", "int", "str"])
+    base = rng.randint(-6, 3)
+    qs = order if order is not None else [rng.randrange(n) for _ in range(rng.randint(2, 6))]
+    if order is None and rng.random() < 0.6:
+        qs = sorted(set(qs), reverse=True) + qs          # channels first appear in descending order
+    gates = []
+    for q in qs:
+        kind = rng.choice(["scalar", "scalar", "discrete", "continuous"])
+        tl, cf = gen_wave(rng, kind, base + rng.randint(0, 4))
+        fam = 0 if rng.random() < 0.7 else 1
+        pulses = [[fam, q, cf]]
+        if rng.random() < 0.2:
+            c2 = ["s", F(rng.randint(-16, 16), 8)] if tl[0] == "s" else ["a", [F(rng.randint(-16, 16), 8) for _ in cf[1]]]
+            pulses.append([1 - fam, rng.randrange(n), c2])
+        gates.append({"tl": [tl[0], fs(tl[1]) if tl[0] == "s" else [fs(x) for x in tl[1]]],
+                      "pulses": [[f_, q_, [c[0], fs(c[1]) if c[0] == "s" else [fs(x) for x in c[1]]]] for f_, q_, c in pulses]})
+    return {"device": dev, "n": max(n, max(qs) + 1), "labels": style, "mode": rng.choice([None, "ASAP", "ALAP"]), "gates": gates}
+
+
+def _same(a, b):
+    if a is b:
+        return True
+    if a is None or b is None:
+        return False
+    a, b = np.asarray(a), np.asarray(b)
+    return a.shape == b.shape and bool(np.array_equal(a, b))
+
+
 def direct_input(chans):
     """[[(start, tl, cf)]] -> JSON-able input of a direct _concatenate_pulses call"""
     return {"direct": [[[fs(s), [tl[0], fs(tl[1]) if tl[0] == "s" else [fs(x) for x in tl[1]]],
@@ -1118,6 +1307,7 @@ class C12(PropertyCheck):
         "QipVerif.C12.no_small_gap_when_separated",
         "QipVerif.C12.compile_source_channels",
         "QipVerif.C12.compile_source_end_to_end",
+        "QipVerif.C12.stored_pulses_are_compiled_maps",
         "QipVerif.C12.tolerance_counterexample",
         "QipVerif.C12.maxstart_rounding_counterexample",
         # repaired gap test, gaps 0 or above the tolerance
@@ -1166,6 +1356,10 @@ class C12(PropertyCheck):
         "length 1e4 makes the grid go backwards; relative to the largest END time the schedule is a rounded chain.  "
         "compile_source_channels / compile_source_end_to_end / schedule_unscheduled / schedule_scheduled: compile drops zero-duration instructions, keeps every "
         "(instruction, start) pair, sorts the starts and puts exactly the pulses labelled l on channel l.  "
+        "Processor state: stored_pulses_are_compiled_maps -- ModelProcessor.load_circuit (set_coeffs then set_tlist, Model/PulseStore.lean) "
+        "leaves one pulse per label of the returned maps, in the order of coeff_map, each holding tlist_map[label] and coeff_map[label], "
+        "for any labels (str, int, numpy integer) in any order of first appearance; so the statements about the returned maps are "
+        "statements about processor.pulses.  "
         "Older code (kept as theorems about the model variants byTol / Sep): concatenate_channels ... every_channel_points_are_schedule "
         "under the scale hypothesis Sep, refuted without it by scale_counterexample, gap_counterexample, idle_only_counterexample.  "
         "The model the driver runs (concatenateS Gen.concatSrc) is tied to GateCompiler.compile / _concatenate_pulses / "
@@ -1191,6 +1385,9 @@ class C12(PropertyCheck):
         "float arithmetic of the code is exact on the dyadic stream (multiples of 2^-30 below 2^23); tolerance products vs the "
         "rational constants: cases whose outcome changes when the constants are scaled by 1+-2^-20 are skipped",
         "Scheduler.schedule (C11) supplies the start times",
+        "Processor.set_coeffs / set_tlist / get_pulse_dict / add_pulse / clear_pulses and the end of load_circuit are the statements "
+        "Model/PulseStore.lean models (checked with ast on every run, TranslatorError otherwise) and agree with it pulse by pulse on "
+        "every store case; Model.get_control and the Pulse constructor keep label and arrays (compared by identity / equality)",
         "py/props/c12.py (harness; oracle on exact Fractions, independent of the model and of the regenerated description)",
     ]
     assumptions = [
@@ -1204,8 +1401,8 @@ class C12(PropertyCheck):
     rule = ("case = (gate list with one synthetic instruction per gate: scalar / discrete / continuous waveform, dyadic times "
             "m*2^e, e in [-30,17]; schedule mode None/ASAP/ALAP) compiled by GateCompiler.compile and by the regenerated model fed "
             "with the start times the real Scheduler returned; non-trivial = at least one channel with two instructions or an idle gap; "
-            "direct _concatenate_pulses calls (also at the tolerance limits), malformed inputs, unit calls and shipped compilers are "
-            "counted with their own tags")
+            "direct _concatenate_pulses calls (also at the tolerance limits), malformed inputs, unit calls, shipped compilers and "
+            "the processor state after load_circuit (label styles x orders of first appearance x devices) are counted with their own tags")
 
     def __init__(self):
         self.desc = None
@@ -1231,7 +1428,9 @@ class C12(PropertyCheck):
             put(self.desc)
             raise
         ctx.log(f"source of {paths.REPO}: {describe(self.desc)}")
-        return put(self.desc)
+        out = put(self.desc)
+        read_store()            # Processor.set_coeffs / set_tlist / get_pulse_dict as modelled (TranslatorError otherwise)
+        return out
 
     def _desc(self):
         if self.desc is None:
@@ -1403,6 +1602,58 @@ class C12(PropertyCheck):
         if d:
             res.disagree(inp, "model", "impl", d, w)
 
+    def _compare_store(self, ctx, res, case, tags):
+        """the pulses the processor holds after load_circuit against Model/PulseStore.lean (positions, labels, which grid and which
+        coefficient array of the returned maps each pulse carries)"""
+        w = {"kind": "store", "case": case}
+        st, maps, pulses, starts, perm = run_store(case)
+        tg = list(tags) + ["store=" + case["device"], "labels=" + case["labels"], f"mode={case['mode']}"]
+        if st != "ok":
+            res.case(case, nontrivial=False, tags=tg + ["result=err"])
+            res.disagree(case, "ok", maps, "load_circuit raised on a valid circuit", w)
+            return
+        ids = {}
+        for lab, _x in maps["coeffs"] + maps["tlists"]:
+            ids.setdefault(label_key(lab), len(ids))
+        cl = [ids[label_key(lab)] for lab, _x in maps["coeffs"]]
+        tl = [ids[label_key(lab)] for lab, _x in maps["tlists"]]
+        line = f"store coeffs={','.join(map(str, cl)) or '-'} tlists={','.join(map(str, tl)) or '-'}"
+        o = ctx.driver("drv_concat").run([line])[0]
+        order = [label_key(lab) for lab, _x in maps["coeffs"]]
+        desc = order != sorted(order, key=lambda k: (len(k), k))
+        res.case(case, nontrivial=len(cl) >= 2, tags=tg + (["non-ascending-channels"] if desc else []))
+        if not o.startswith("ok"):
+            res.disagree(case, o, "ok", "model refuses what load_circuit stored", w)
+            return
+        model = [x.split(":") for x in o[3:].split("!")] if o[3:] else []
+        if len(model) != len(pulses):
+            res.disagree(case, o, len(pulses), "number of pulses in the processor", w)
+            return
+        for k, ((ml, mt, mc), (lab, ptl, pco)) in enumerate(zip(model, pulses)):
+            if ids.get(label_key(lab)) != int(ml):
+                res.disagree(case, o, label_key(lab), f"label of pulse {k}", w)
+                return
+            if not _same(pco, maps["coeffs"][int(mc)][1]):
+                res.disagree(case, o, None, f"pulse {k} ({label_key(lab)}) does not carry coefficient array {mc} of the returned map", w)
+                return
+            if (mt == "~") != (ptl is None) or (mt != "~" and not _same(ptl, maps["tlists"][int(mt)][1])):
+                res.disagree(case, o, None if ptl is None else [float(x) for x in np.atleast_1d(ptl)][:8],
+                             f"pulse {k} ({label_key(lab)}) does not carry time grid {mt} of the returned map", w)
+                return
+
+    def _store(self, ctx, res, n):
+        rng = ctx.rng
+        # deterministic: every order of first appearance of three channels, every label style, generic processor and spin chain
+        for order in itertools.permutations(range(3)):
+            for dev, styles in (("generic", ("int", "npint", "str")), ("spinchain-linear", ("int", "str"))):
+                for style in styles:
+                    r2 = __import__("random").Random(__import__("zlib").crc32(repr((order, dev, style)).encode()))
+                    case = gen_store_case(r2, device=dev, style=style, order=list(order))
+                    for mode in (None, "ASAP"):
+                        self._compare_store(ctx, res, dict(case, mode=mode), ["store-family=orders"])
+        for _ in range(n):
+            self._compare_store(ctx, res, gen_store_case(rng), ["store"])
+
     def _units(self, ctx, res, n):
         """_process_gate_pulse and _process_idling_tlist on their own"""
         rng = ctx.rng
@@ -1527,6 +1778,10 @@ class C12(PropertyCheck):
         self._direct(ctx, res, 300 * k, malformed=True)
         self._units(ctx, res, 600 * k)
         self._shipped(ctx, res, 60 * k)
+        self._store(ctx, res, 150 * k)
+        res.notes.append("processor state after load_circuit: all 6 orders of first appearance of three channels x label styles "
+                         "(int / numpy integer / str) x generic ModelProcessor and spin chain, then random circuits on the generic "
+                         "processor and the four shipped devices; compared with Model/PulseStore.lean pulse by pulse")
         res.notes.append(f"source as read: {describe(self._desc())}; the model uses the decimal constants exactly; cases whose "
                          "outcome changes when the tolerance constants are scaled by 1+-2^-20 are skipped (tag tight-skipped)")
 
@@ -1577,6 +1832,36 @@ class C12(PropertyCheck):
             if st == "none" or not any(chans.values()):
                 return (True, "compile returned nothing for a gate list with pulses") if any(chans.values()) else (False, "no control pulse")
             return judge(chans, {lab: (tl, cf) for lab, tl, cf in payload}, full)
+        if w["kind"] == "store":
+            case = w["case"]
+            st, maps, pulses, starts, perm = run_store(case)
+            if st != "ok":
+                return True, f"load_circuit raised {maps}"
+            tmap = {label_key(l): x for l, x in maps["tlists"]}
+            cmap = {label_key(l): x for l, x in maps["coeffs"]}
+            held = {}
+            for lab, ptl, pco in pulses:
+                k = label_key(lab)
+                if k in held:
+                    return True, f"two pulses of the processor carry the label {k}"
+                held[k] = (ptl, pco)
+            if set(held) != set(cmap):
+                return True, f"the processor holds pulses {sorted(held)}, compile returned the channels {sorted(cmap)}"
+            for k, (ptl, pco) in held.items():
+                if not _same(pco, cmap[k]):
+                    return True, f"processor pulse {k}: coefficients {np.asarray(pco).tolist()[:6]}, compile returned {np.asarray(cmap[k]).tolist()[:6]}"
+                if not _same(ptl, tmap.get(k)):
+                    return True, (f"processor pulse {k}: time grid {None if ptl is None else np.asarray(ptl).tolist()[:6]}, compile "
+                                  f"returned {None if tmap.get(k) is None else np.asarray(tmap[k]).tolist()[:6]} for that label")
+            # and the stored pulses are the scheduled waveforms
+            mcase = store_windows_case(case)
+            try:
+                chans = windows_of(ordered_instr(mcase, starts, perm))
+            except Exception as e:
+                return False, "not judged: could not reconstruct the schedule: " + repr(e)
+            got = {k: ((None, None) if v[0] is None else ([float(x) for x in v[0]], [float(x) for x in np.asarray(v[1]).ravel()]))
+                   for k, v in held.items()}
+            return judge(chans, got, full)
         if w["kind"] == "zero-duration":
             from qutip_qip.device import LinearSpinChain
             from qutip_qip.circuit import QubitCircuit
@@ -1611,9 +1896,17 @@ class C12(PropertyCheck):
             return False, "unit comparison only"
         return False, "unknown witness kind"
 
-    def _sweep(self, ctx, n_dyadic, n_float, n_shipped):
+    def _sweep(self, ctx, n_dyadic, n_float, n_shipped, n_store=0):
         rng = ctx.rng
         judged = 0
+        for _ in range(n_store):
+            w = {"kind": "store", "case": gen_store_case(rng)}
+            try:
+                f, d = self.oracle_replay(ctx, w)
+            except Exception as e:
+                f, d = True, "oracle crashed: " + repr(e)
+            if f:
+                yield w, d
         for i in range(n_dyadic + n_float):
             case = gen_case(rng, wild=rng.random() < 0.5) if i < n_dyadic else gen_float_case(rng)
             w = {"kind": "synthetic", "case": case}
@@ -1637,7 +1930,7 @@ class C12(PropertyCheck):
     def oracle_always(self, ctx):
         # judged on every schedule except the resolution class (gaps / steps <= 1e-12 of the total time), which the theorems
         # exclude explicitly (SmallGap exception set, ChainR); see notes/C12.md
-        yield from self._sweep(ctx, 150, 250, 15)
+        yield from self._sweep(ctx, 150, 250, 15, 60)
 
     def oracle_search(self, ctx, budget_s):
         t0 = time.time()
@@ -1647,7 +1940,7 @@ class C12(PropertyCheck):
             if f:
                 yield w, d
         while time.time() - t0 < budget_s:
-            yield from self._sweep(ctx, 60, 120, 5)
+            yield from self._sweep(ctx, 60, 120, 5, 40)
 
     def finding_matches(self, witness, finding):
         from vlib.core import canon
